@@ -1,6 +1,12 @@
-/* fault.c — E4 fault enumerators: allocator interposition (link with
- * -Wl,--wrap=malloc,--wrap=calloc,--wrap=realloc,--wrap=free,--wrap=strdup,--wrap=strndup)
- * and failing stdio sinks (fopencookie).  Only linked into harnesses that ask. */
+/* fault.c — E4 fault enumerators: allocator interposition and failing stdio
+ * sinks (fopencookie).  Only linked into harnesses that ask.
+ *
+ * Interposition is by symbol renaming, not --wrap: the Makefile makes copies of
+ * the library's objects (and of libz.a / libzstd.a) in which malloc, calloc,
+ * realloc, free, strdup and strndup are renamed to mcf_* (objcopy
+ * --redefine-syms mc/wrap.syms).  Only allocations made BY THE LIBRARY (and by
+ * zlib/zstd on its behalf) are counted, tracked and faulted; the harness and the
+ * reference stack keep the real allocator. */
 #define _GNU_SOURCE
 #include "fault.h"
 #include <stdio.h>
@@ -9,10 +15,11 @@
 #include <errno.h>
 #include <stdint.h>
 
-void* __real_malloc(size_t);
-void* __real_calloc(size_t, size_t);
-void* __real_realloc(void*, size_t);
-void  __real_free(void*);
+#define __real_malloc malloc
+#define __real_calloc calloc
+#define __real_realloc realloc
+#define __real_free free
+void* mcf_malloc(size_t); void* mcf_calloc(size_t, size_t); void* mcf_realloc(void*, size_t); void mcf_free(void*); char* mcf_strdup(const char*); char* mcf_strndup(const char*, size_t);
 
 #define TB 17
 typedef struct { void* p; size_t n; long seq; } ent_t;
@@ -41,25 +48,49 @@ static size_t untrack(void* p) {
     ent_t* e = find(p); if (!e) return (size_t)-1;
     size_t n = e->n; e->p = (void*)1; g_live--; g_live_bytes -= n; return n;
 }
+#if defined(__SANITIZE_ADDRESS__)
+void __sanitizer_print_stack_trace(void);
+#endif
+#if defined(__SANITIZE_ADDRESS__)
+void __sanitizer_symbolize_pc(void* pc, const char* fmt, char* out, size_t n);
+#endif
+static int g_trace; static char g_site[96];
+void mcf_trace(int on) { g_trace = on; }
+const char* mcf_fail_site(void) { return g_site; }
+static void* g_ra;
 static int should_fail(void) {
     g_seq++;
-    if (g_seq == g_fail1 || g_seq == g_fail2) { g_hits++; g_last_fail_seq = g_seq; errno = ENOMEM; return 1; }
+    if (g_seq == g_fail1 || g_seq == g_fail2) {
+        g_hits++; g_last_fail_seq = g_seq; errno = ENOMEM;
+#if defined(__SANITIZE_ADDRESS__)
+        if (!g_site[0] && g_ra) { __sanitizer_symbolize_pc(g_ra, "%f", g_site, sizeof g_site); for (char* q = g_site; *q; q++) if (!((*q >= 'a' && *q <= 'z') || (*q >= 'A' && *q <= 'Z') || (*q >= '0' && *q <= '9') || *q == '_')) *q = '_'; }
+#endif
+        if (g_trace) { fprintf(stderr, "MCF: allocation request #%ld fails here:\n", g_seq);
+#if defined(__SANITIZE_ADDRESS__)
+            __sanitizer_print_stack_trace();
+#endif
+        }
+        return 1;
+    }
     return 0;
 }
 
-void* __wrap_malloc(size_t n) {
+static void* do_malloc(size_t n) {
     if (!g_on) return __real_malloc(n);
     if (should_fail()) return NULL;
     void* p = __real_malloc(n);
     if (p && g_poison >= 0) memset(p, g_poison, n);
     track(p, n); return p;
 }
-void* __wrap_calloc(size_t a, size_t b) {
+void* mcf_malloc(size_t n) { g_ra = __builtin_return_address(0); return do_malloc(n); }
+void* mcf_calloc(size_t a, size_t b) {
+    g_ra = __builtin_return_address(0);
     if (!g_on) return __real_calloc(a, b);
     if (should_fail()) return NULL;
     void* p = __real_calloc(a, b); track(p, a * b); return p;
 }
-void* __wrap_realloc(void* q, size_t n) {
+void* mcf_realloc(void* q, size_t n) {
+    g_ra = __builtin_return_address(0);
     if (!g_on) { if (q) untrack(q); return __real_realloc(q, n); }
     if (should_fail()) return NULL;
     size_t old = q ? untrack(q) : 0;
@@ -69,22 +100,24 @@ void* __wrap_realloc(void* q, size_t n) {
     if (n) track(p, n);
     return p;
 }
-void __wrap_free(void* p) {
+void mcf_free(void* p) {
     if (p) untrack(p);
     __real_free(p);
 }
-char* __wrap_strdup(const char* s) {
-    size_t n = strlen(s) + 1; char* p = __wrap_malloc(n); if (p) memcpy(p, s, n); return p;
+char* mcf_strdup(const char* s) {
+    g_ra = __builtin_return_address(0);
+    size_t n = strlen(s) + 1; char* p = do_malloc(n); if (p) memcpy(p, s, n); return p;
 }
-char* __wrap_strndup(const char* s, size_t m) {
-    size_t n = strnlen(s, m); char* p = __wrap_malloc(n + 1); if (p) { memcpy(p, s, n); p[n] = 0; } return p;
+char* mcf_strndup(const char* s, size_t m) {
+    g_ra = __builtin_return_address(0);
+    size_t n = strnlen(s, m); char* p = do_malloc(n + 1); if (p) { memcpy(p, s, n); p[n] = 0; } return p;
 }
 
-void mcf_reset(void) { memset(g_tab, 0, sizeof g_tab); g_live = 0; g_live_bytes = 0; g_seq = 0; g_fail1 = g_fail2 = 0; g_hits = 0; g_on = 0; g_poison = -1; }
+void mcf_reset(void) { g_site[0] = 0; memset(g_tab, 0, sizeof g_tab); g_live = 0; g_live_bytes = 0; g_seq = 0; g_fail1 = g_fail2 = 0; g_hits = 0; g_on = 0; g_poison = -1; }
 void mcf_on(void) { g_on = 1; }
 void mcf_off(void) { g_on = 0; }
 long mcf_requests(void) { return g_seq; }
-void mcf_restart_count(void) { g_seq = 0; g_hits = 0; }
+void mcf_restart_count(void) { g_seq = 0; g_hits = 0; g_site[0] = 0; }
 void mcf_fail_at(long k1, long k2) { g_fail1 = k1; g_fail2 = k2; }
 long mcf_hits(void) { return g_hits; }
 long mcf_live(void) { return g_live; }
